@@ -3,7 +3,7 @@
 
   seedeval.py <prop> <A|B> --pkg <package dir of the demo, e.g. actions> [--run <TestName regex>] [--checks C05,C01] [--thorough]
 
-Source: /tmp/seed/<prop>-out/<A|B>/{patch.diff, demo_test.go|*.go, README.md}
+Source: /tmp/seed/<prop>-out/<variant>/ if it exists, else the stored copy /verif/seeded/<prop>-<variant>/ {patch.diff, demo_test.go|*.go, README.md}
 Everything happens in a scratch worktree under /tmp (removed afterwards); /repo is never modified.
 Result: /verif/seeded/<prop>-<A|B>/{patch.diff, demo files, README.md, meta.json}
 """
@@ -30,6 +30,8 @@ def main():
     ap.add_argument("--base", default="HEAD", help="commit of /repo the change was written against (default HEAD)")
     a = ap.parse_args()
     src = a.src or f"/tmp/seed/{a.prop}-out/{a.variant}"
+    if not os.path.isdir(src):
+        src = f"/verif/seeded/{a.prop}-{a.variant}"  # the stored copy
     name = f"{a.prop}-{a.variant}"
     wt = f"/tmp/sv-{name}"
     subprocess.run(["git", "-C", "/repo", "worktree", "remove", "--force", wt], capture_output=True)
@@ -58,7 +60,7 @@ def main():
         if not suite_ok:
             print(o[-2000:])
         # 2. demonstration with / without the change
-        demos = [f for f in glob.glob(os.path.join(src, "*.go"))]
+        demos = [f for f in glob.glob(os.path.join(src, "*.go"))]  # demo_test.go (or demo.go)
         for d in demos:
             shutil.copy(d, os.path.join(wt, a.pkg, os.path.basename(d)))
         runarg = f"-run '{a.run}'" if a.run else ""
@@ -109,7 +111,7 @@ def finish(a, name, src, meta):
     out = f"/verif/seeded/{name}"
     os.makedirs(out, exist_ok=True)
     for f in glob.glob(os.path.join(src, "*")):
-        if os.path.isfile(f):
+        if os.path.isfile(f) and os.path.abspath(os.path.dirname(f)) != os.path.abspath(out):
             shutil.copy(f, os.path.join(out, os.path.basename(f)))
     meta["demo_package"] = a.pkg
     with open(os.path.join(out, "meta.json"), "w") as f:
